@@ -292,6 +292,9 @@ pub struct Field {
     pub serialized_as: Option<Ty>,
     /// attribute spelling/order selector
     pub layout: u8,
+    /// `#[typeshare(<lang>(type = "<text>"))]`: the field's type is written verbatim for that one language
+    #[serde(default)]
+    pub type_override: Option<(String, String)>,
 }
 impl Field {
     pub fn new(name: &str, ty: Ty) -> Field {
@@ -309,6 +312,7 @@ impl Field {
             flatten: false,
             serialized_as: None,
             layout: 0,
+            type_override: None,
         }
     }
     pub fn skipped(&self) -> bool {
@@ -391,6 +395,10 @@ pub struct Item {
     /// nested `mod a { mod b { .. } }` path
     pub mod_path: Vec<String>,
     pub layout: u8,
+    /// enum-level `#[serde(rename_all_fields = "..")]` written next to per-variant `rename_all` rules: serde lets the
+    /// variant's own rule win, so this attribute must not change any key (it is only set when every struct variant has a rule)
+    #[serde(default)]
+    pub decoy_rename_all_fields: Option<String>,
 }
 impl Item {
     pub fn new(name: &str, kind: Kind) -> Item {
@@ -406,6 +414,7 @@ impl Item {
             serialized_as: None,
             mod_path: vec![],
             layout: 0,
+            decoy_rename_all_fields: None,
         }
     }
     pub fn kind_name(&self) -> &'static str {
@@ -540,6 +549,9 @@ fn field_src(f: &Field, ind: &str, vis: &str, out: &mut String) {
     if let Some(t) = &f.serialized_as {
         tsa.push(format!("serialized_as = {}", esc(&t.rust())));
     }
+    if let Some((lang, text)) = &f.type_override {
+        tsa.push(format!("{lang}(type = {})", esc(text)));
+    }
     let mut lines: Vec<String> = vec![];
     let mut l2: Vec<String> = vec![];
     attr_lines("serde", &serde, f.layout, ind, &mut lines);
@@ -628,6 +640,9 @@ pub fn item_src(it: &Item) -> String {
             }
             if let Some(r) = rename_all {
                 serde.push(format!("rename_all = {}", esc(r)));
+            }
+            if let Some(r) = &it.decoy_rename_all_fields {
+                serde.push(format!("rename_all_fields = {}", esc(r)));
             }
         }
         _ => {}
